@@ -10,7 +10,7 @@ import random
 from .. import corpus, ops, proc
 from ..seams import SIM
 
-BUDGET = {"quick": 100.0, "thorough": 3000.0}
+BUDGET = {"quick": 140.0, "thorough": 3000.0}
 
 HR = 'define hierarchical ruleset {n} (variable rule {c}) is A = B + C errorcode "e1" errorlevel 1; D = A - B end hierarchical ruleset;'
 HRV = 'define hierarchical ruleset {n} (valuedomain rule {c}) is A = B + C end hierarchical ruleset;'
@@ -123,6 +123,50 @@ def confusable(rng, txt):
     if k == 8:
         return txt + "\nDS_zz <- DS_1;"                                      # same prefix
     return txt.replace("\n", " ")
+
+
+def _op(api, txt):
+    return {"api": api, "script": txt, "structures": ST if api == "semantic_analysis" else None, "data": None,
+            "kwargs": ({"agency_id": "MD", "id": "T1"} if api == "generate_sdmx" else {}), "env": {}, "output_folder": False}
+
+
+def pattern_histories(rng, texts):
+    """Histories built on purpose (every run starts with a sample of them): the shapes in which state left by a parse has
+    shown up so far, instantiated over the whole pool - a definition (or a failure after a definition) followed by a use of
+    the same name without a definition; a confusable variant of a text followed by the text; many rejected texts followed by
+    an accepted one; a comment-bearing text followed by another; the same call twice."""
+    import re
+
+    out = []
+    names = ("f1", "f2", "f3", "g1", "HR_1", "HR_2", "dpr_1", "vp")
+    defines = {n: [t for t in texts if re.search(r"define [a-z ]+ %s\b" % n, t)] for n in names}
+    uses_nodef = {n: [t for t in texts if re.search(r"\b%s\b" % n, t) and not re.search(r"define [a-z ]+ %s\b" % n, t)] for n in names}
+    for n in names:
+        for d in defines[n]:
+            for u in uses_nodef[n]:
+                api = rng.choice(["create_ast", "create_ast", "prettify", "semantic_analysis"])
+                out.append([_op("create_ast", d), _op(api, u)])
+    for t in texts:
+        for k in range(10):
+            v = confusable(random.Random(k), t)       # variant kind k (confusable draws its kind first)
+            if v != t:
+                api = rng.choice(["create_ast", "prettify", "generate_sdmx"])
+                out.append([_op(api, v), _op(api, t)] if rng.random() < 0.5 else [_op(api, t), _op(api, v)])
+    rejected = [t for t in texts if "eval(f(DS_1)" in t or 'time_agg("A")' in t or "is x * 2 end operator" in t or t.endswith("+;")]
+    accepted = [t for t in texts if t.startswith("DS_r <- (((") and "eval" not in t and "time_agg" not in t] + ["DS_r <- DS_1 + DS_2;"]
+    for _ in range(40):
+        rej = rng.choice(rejected)
+        n = rng.choice([2, 3, 5, 12, 40])
+        out.append([_op(rng.choice(["create_ast", "prettify"]), rej) for _ in range(n)] + [_op("create_ast", rng.choice(accepted))])
+    commented = [t for t in texts if "/*" in t or "//" in t]
+    for c in commented:
+        other = rng.choice(texts)
+        out.append([_op("prettify", c), _op("prettify", other), _op("prettify", c)])
+    for t in rng.sample(texts, min(30, len(texts))):
+        api = rng.choice(["generate_sdmx", "prettify", "create_ast"])
+        out.append([_op(api, t), _op(api, t)])
+    rng.shuffle(out)
+    return out
 
 
 def _stem(txt):
@@ -316,7 +360,7 @@ def run(ctx):
     cps = rng.sample(cps, min(40 if quick else 400, len(cps)))
     # a bounded pool of distinct calls (each needs one pristine-process reference; forks are the
     # bottleneck at ~40/s on this machine), histories draw from the pool
-    pool_n = 450 if quick else 12000
+    pool_n = 300 if quick else 12000
     pool = {}
     for _ in range(pool_n * 3):
         op = make_call(rng, texts, cps)
@@ -352,6 +396,10 @@ def run(ctx):
             hist.append((h, [rng.choice(ws) for _ in range(k)]))
         else:
             hist.append((h, [rng.choice(pool) for _ in range(k)]))
+    # pattern histories first (a sample in quick, all of them in thorough)
+    pats = pattern_histories(random.Random(ctx.seed * 7 + 1), texts)
+    pats = pats[: (150 if quick else len(pats))]
+    hist = [(1000000 + i, calls) for i, calls in enumerate(pats)] + hist
     # fault injection at the parser seam: a call whose parse() raises (allocation failure / interrupt inside the
     # native call), immediately followed by the same call fault-free, and then by whatever the history had next
     n_pf = 0
@@ -368,7 +416,7 @@ def run(ctx):
                 distinct.setdefault(_key(op), op)
     items = sorted(distinct.items())
     chunk = 10
-    ad = ctx.map("task_alone", [{"ops": items[i:i + chunk]} for i in range(0, len(items), chunk)], budget_s=ctx.budget_s * 0.4)
+    ad = ctx.map("task_alone", [{"ops": items[i:i + chunk]} for i in range(0, len(items), chunk)], budget_s=ctx.budget_s * 0.35)
     amap = {}
     for _t, r in ad:
         amap.update(r)
@@ -377,11 +425,11 @@ def run(ctx):
     # histories whose references are all known first; the others compute the missing references
     # themselves (a slow machine shrinks the exploration, it does not empty it)
     hist.sort(key=lambda hc: sum(1 for op in hc[1] if not op.get("parse_fault") and _key(op) not in amap))
-    for i in range(0, n, size):
+    for i in range(0, len(hist), size):
         part = hist[i:i + size]
         keys = {_key(op) for _h, calls in part for op in calls}
         tasks.append({"histories": part, "alone": {k: amap[k] for k in keys if k in amap}})
-    done = ctx.map("task_histories", tasks, budget_s=ctx.budget_s * 0.5, min_tasks=24)
+    done = ctx.map("task_histories", tasks, budget_s=ctx.budget_s * 0.6, min_tasks=24)
     violations, samples = [], []
     n_eval = n_calls = n_nontrivial = n_pf_run = 0
     for _t, res in done:
